@@ -15,8 +15,6 @@ Two oracle levels, both against Python's own evaluation (nothing is compared wit
 
 See vlib/c04_gen.py (grammar, environments) and vlib/c04_core.py (judges, root-cause features).
 """
-from vlib.runner import Violation
-
 ID = 'C04'
 LEVEL = 'exploration'
 RULE = ('hypothesis draws a typed external expression (int/str/float/Decimal/date/bool/None; all binary/unary/boolean/'
@@ -104,7 +102,7 @@ def run(ctx):
 
     ctx.run_test(t_l1, dict(te=G.external_exprs(), envs=st.lists(G.environments(), min_size=2, max_size=2),
                             mode=st.sampled_from(['global', 'deref', 'fast'])),
-                 max_examples=ctx.scale(900, 8000), name='roundtrip', phases=NOSHRINK)
+                 max_examples=ctx.scale(900, 6000), name='roundtrip', phases=NOSHRINK)
 
     # ---- level 2 -------------------------------------------------------------------------------------------------
     def t_l2_eq(te, env, lay, flip, part):
@@ -125,7 +123,7 @@ def run(ctx):
 
     ctx.run_test(t_l2_eq, dict(te=G.external_exprs(max_depth=3, allow_lambda=False), env=G.environments(), lay=G.BIG, flip=st.booleans(),
                                part=st.sampled_from(['cond', 'cond', 'elt'])),
-                 max_examples=ctx.scale(130, 1100), name='query_eq', phases=NOSHRINK)
+                 max_examples=ctx.scale(130, 900), name='query_eq', phases=NOSHRINK)
 
     def t_l2_mixed(pq, env, lay):
         part, expr = pq
@@ -144,7 +142,7 @@ def run(ctx):
                 break
 
     ctx.run_test(t_l2_mixed, dict(pq=G.mixed_queries(), env=G.environments(), lay=G.BIG),
-                 max_examples=ctx.scale(110, 900), name='query_mixed', phases=NOSHRINK)
+                 max_examples=ctx.scale(110, 700), name='query_mixed', phases=NOSHRINK)
 
 
 def replay(case):
